@@ -54,11 +54,11 @@ def check_matching(rep, name, th, h, vw, tier, prop="C02"):
         rep.obligation("theorem side conditions on real matching", "monitor", False, str(info))
     if summ["template_fallback"] and not name.startswith("template"):
         # fallback = approximation by construction; the property demands the exact one when it exists
-        if err > BACKWARD_TOL:
+        if not err <= BACKWARD_TOL:
             rep.violation("template-model fallback returned although the matching does not conserve the fluxes of the model's own EOS",
                           info, finding_key=f"{prop}:fallback-inexact")
         return info
-    if not ok or err > BACKWARD_TOL:
+    if not ok or not err <= BACKWARD_TOL:
         rep.violation(f"returned {branch} matching is not within tolerance of a solution of the conservation laws "
                       f"(backward error {err:.3g})", info, finding_key=f"{prop}:conservation:{branch}")
     return info
@@ -112,7 +112,7 @@ def search(rep: C.Report, tier: str, broken):
                 first = check_matching(rep, name + " [fresh object, detonation first]", th, hf, vdet, tier)
                 hf.findMatching(0.5 * (hf.vMin + min(hf.vJ, 0.5)))
                 again = hf.findMatching(vdet)
-                if first and first.get("vp") is not None and max(abs(float(a) - b) for a, b in zip(again, (first["vp"], first["vm"], first["Tp"], first["Tm"]))) > 1e-12:
+                if first and first.get('vp') is not None and (not max((abs(float(a) - b) for a, b in zip(again, (first['vp'], first['vm'], first['Tp'], first['Tm'])))) <= 1e-12):
                     rep.violation("the matching returned for a detonation depends on which requests were made on the object before",
                                   {"eos": name, "vw": vdet, "first_request_on_fresh_object": [first["vp"], first["vm"], first["Tp"], first["Tm"]],
                                    "after_a_deflagration_request": [float(x) for x in again]}, finding_key="C02:history")
